@@ -1,12 +1,11 @@
 (* C05 property theorems.  Inv s a: the file-system state s represents the abstract database a (C04, Proofs2);
-   every state reached by write-outs and crashes/faults from the empty DB satisfies it (C04).  reader_meta is
-   the metadata-level reader of C04.  classify o = FFatal: the writer aborts when operation o fails (every
+   every state reached by write-outs and crashes/faults from the empty DB satisfies it (C04).  reader is the model of the real reader (C04), including the read-back of every committed block.  classify o = FFatal: the writer aborts when operation o fails (every
    operation up to and including the metadata rename except the dropped ReadDir errors); the two other
    classes are FIgnored (error dropped by the code, the write-out commits and reports success) and
    FAfterCommit (the directory rename - refuted below, finding C05-dir-rename-fault). *)
 From Coq Require Import List ZArith NArith Bool Arith Lia.
 From GoProbe.Base Require Import CorrLib.
-From GoProbe.C04 Require Import Model Proofs2 Proofs5.
+From GoProbe.C04 Require Import Model ProofsCols Proofs2 Proofs5.
 From GoProbe.C05 Require Import Model Proofs.
 Import ListNotations.
 
@@ -15,24 +14,48 @@ Import ListNotations.
 Theorem c05_fault_safe_partial : forall s a w k o, Inv s a ->
   nth_error (writeout_ops s w) k = Some o -> classify o = FFatal ->
   snd (fault_run (writeout_ops s w) k) = false /\
-  reader_meta (apply_all s (fst (fault_run (writeout_ops s w) k))) = reader_meta s.
+  reader (apply_all s (fst (fault_run (writeout_ops s w) k))) = reader s.
 Proof. exact fault_safe. Qed.
 Print Assumptions c05_fault_safe_partial.
 
 (* after ANY finite sequence of fatally faulted write-outs the reader still answers as before, and a
    fault-free write-out is accepted and read back *)
-Theorem c05_heals_partial : forall s s' a w, Inv s a -> faulted s s' ->
-  reader_meta s' = reader_meta s /\
-  reader_meta (apply_all s' (writeout_ops s' w)) = Ok (spec_read_m (adb_put a w)).
+Theorem c05_heals_partial : forall s s' a w, Inv s a -> wf_w w -> faulted s s' ->
+  reader s' = reader s /\
+  reader (apply_all s' (writeout_ops s' w)) = Ok (spec_read_f (adb_put a w)).
 Proof. exact heals. Qed.
 Print Assumptions c05_heals_partial.
+
+(* errors the code drops (Close of the month listing; the deferred Remove of the already renamed temp file =
+   unlinkat + unlinkat(AT_REMOVEDIR) at the very end): Write returns nil and the reader sees the write-out
+   completely.  Side condition: the failing operation is state-neutral itself or only state-neutral operations
+   follow it - it holds for every dropped-error position of a write-out (c05_dropped_example; checked on every
+   generated case by the correspondence run) *)
+Theorem c05_dropped_error_commits : forall s a w k o, Inv s a -> wf_w w ->
+  nth_error (writeout_ops s w) k = Some o -> classify o = FIgnored ->
+  (noop o \/ Forall noop (skipn (S k) (writeout_ops s w))) ->
+  snd (fault_run (writeout_ops s w) k) = true /\
+  reader (apply_all s (fst (fault_run (writeout_ops s w) k))) = Ok (spec_read_f (adb_put a w)).
+Proof. exact dropped_commits. Qed.
+Print Assumptions c05_dropped_error_commits.
+
+Example c05_dropped_example :
+  let s := hist_state fs_empty [ex_w 0 1700000100%Z] in
+  let ops := writeout_ops s (ex_w 1 1700000400%Z) in
+  forallb (fun k => match nth_error ops k with
+                    | Some o => match classify o with
+                                | FIgnored => match o with OClose _ | ORmdir _ => true
+                                              | _ => forallb (fun o' => match o' with OClose _ | ORmdir _ | OSeek _ _ | OChmod _ => true | _ => false end) (skipn (S k) ops) end
+                                | _ => true end
+                    | None => true end) (seq 0 (length ops)) = true.
+Proof. vm_compute. reflexivity. Qed.
 
 (* the failing directory rename: Write returns an error but the reader already sees the write-out *)
 Theorem c05_dir_rename_refuted : exists s w k o,
   s = hist_state fs_empty [ex_w 0 1700000100%Z] /\
   nth_error (writeout_ops s w) k = Some o /\ classify o = FAfterCommit /\
   snd (fault_run (writeout_ops s w) k) = false /\
-  reader_meta (apply_all s (fst (fault_run (writeout_ops s w) k))) <> reader_meta s.
+  reader (apply_all s (fst (fault_run (writeout_ops s w) k))) <> reader s.
 Proof. exact rendir_refuted. Qed.
 Print Assumptions c05_dir_rename_refuted.
 
